@@ -187,17 +187,33 @@ func (c *controller) validate(w *World, ch Choice) (*G, bool) {
 	return nil, false
 }
 
+// spinning reports whether g just came back to the same select after a closed-channel receive and that
+// alternative is again the only one ready: a busy-wait (`case m := <-closed: continue`).  Its iterations are
+// pure reads that change nothing outside the goroutine, so under a fair scheduler they are equivalent to
+// waiting: the goroutine is treated like one that yields (switching away is free, it runs again only when
+// nothing else can run; if that stays so the step horizon reports the livelock).
+func (w *World) spinning(g *G, alts []int32) bool {
+	return g.stutterSig != 0 && len(alts) == 1 && alts[0] == g.stutterAlt && g.pend != nil && g.pend.kind == opComm &&
+		selSig(g.pend) == g.stutterSig
+}
+
 // options lists the possible next steps: prev's alternatives first (free), then the other goroutines in
 // creation order (cost 1 if prev is still enabled = preemption, else free).  Low-priority goroutines are
-// offered only when no normal goroutine is enabled.
+// offered only when no normal goroutine is enabled, busy-waiting goroutines only when nothing else is.
 func (c *controller) options(w *World, prev *G, remaining int) []option {
 	out := c.optbuf[:0]
 	prevEnabled := false
+	var spinner *G
+	var spinAlt int32
 	if prev != nil && prev.state == gParked && !prev.low {
 		w.altbuf = w.alts(prev, w.altbuf[:0])
-		for _, a := range w.altbuf {
-			out = append(out, option{c: Choice{G: int16(prev.idx), Alt: a}})
-			prevEnabled = true
+		if w.spinning(prev, w.altbuf) {
+			spinner, spinAlt = prev, w.altbuf[0]
+		} else {
+			for _, a := range w.altbuf {
+				out = append(out, option{c: Choice{G: int16(prev.idx), Alt: a}})
+				prevEnabled = true
+			}
 		}
 	}
 	cost := int8(0)
@@ -210,6 +226,12 @@ func (c *controller) options(w *World, prev *G, remaining int) []option {
 				continue
 			}
 			w.altbuf = w.alts(g, w.altbuf[:0])
+			if w.spinning(g, w.altbuf) {
+				if spinner == nil {
+					spinner, spinAlt = g, w.altbuf[0]
+				}
+				continue
+			}
 			for _, a := range w.altbuf {
 				out = append(out, option{c: Choice{G: int16(g.idx), Alt: a}, cost: cost})
 			}
@@ -228,6 +250,9 @@ func (c *controller) options(w *World, prev *G, remaining int) []option {
 				break
 			}
 		}
+	}
+	if len(out) == 0 && spinner != nil {
+		out = append(out, option{c: Choice{G: int16(spinner.idx), Alt: spinAlt}})
 	}
 	c.optbuf = out
 	return out
